@@ -23,7 +23,7 @@ MANIFEST = dict(
           "Vector/Point ==: 'exact (or within eps/1000) => True, violated by the 4 eps margin => False', boundary points (end points, t = 0, t = 1) in the exact-true region; from these the exact contracts "
           "'admitted => (x in S <=> denotation)' used everywhere else. Line in Plane and the composite cases Segment in Line/Plane/Segment/HalfLine, HalfLine in Line/Plane are proved against universal witnesses "
           "(True => every point contained; False => a named point of x is outside)."),
-    note=("A1, A5. Shape bounds: Point in ConvexPolygon is proved for n = 3..6 vertices and Point in ConvexPolyhedron for F = 4..6 opaque faces (centre, outward unit normal), against the half-plane / half-space denotation "
+    note=("A1, A5. Shape bounds: Point in ConvexPolygon is proved for n = 3..8 vertices and Point in ConvexPolyhedron for F = 4..8, 10, 12 opaque faces (centre, outward unit normal), against the half-plane / half-space denotation "
           "with symbolic eps; Segment in ConvexPolygon / ConvexPolyhedron by convexity of that denotation; HalfLine in HalfLine and the forward direction of ConvexPolygon in Plane. ConvexPolygon in ConvexPolyhedron, the converse of ConvexPolygon in Plane "
           "and larger shapes are covered by the labelled bounded stand-in (membership catalogue with exact oracle), not by proof."),
     design_ref="DESIGN.md section 9 (C05), section 4",
@@ -485,12 +485,12 @@ def polygon_groups(tier):
     ORIG_POLY.setdefault("polyhedron", g.ConvexPolyhedron.__dict__["__contains__"])
     eps_stub = [(T_GET_EPS, stub_get_eps)]
     gs = []
-    sizes = (3, 4, 5, 6) if tier == "thorough" else (3, 4, 5, 6)
+    sizes = (3, 4, 5, 6, 7, 8)
     for n in sizes:
         gs.append(Group("Point in ConvexPolygon[n=%d, tolerance, symbolic eps]" % n, h_point_in_polygon(n), ["Geometry3D.geometry.polygon:ConvexPolygon.__contains__"],
                         stubs=eps_stub + [(C.T_PLANE_IN, C.x_plane_contains_point), (C.T_NORMALIZED, C.x_normalized)], expect_hits=["get_eps", "Plane.__contains__"],
                         world="COORD", timeout_s=900, prove_ms=30000))
-    for F_ in (4, 5, 6):
+    for F_ in (4, 5, 6, 7, 8, 10, 12):
         gs.append(Group("Point in ConvexPolyhedron[F=%d opaque faces, tolerance, symbolic eps]" % F_, h_point_in_polyhedron(F_), ["Geometry3D.geometry.polyhedron:ConvexPolyhedron.__contains__"],
                         stubs=eps_stub, expect_hits=["get_eps"], world="COORD", timeout_s=600, prove_ms=30000))
     ex = exact_stubs() + [("Geometry3D.geometry.polygon:ConvexPolygon.__contains__", x_polygon_contains_point), ("Geometry3D.geometry.polyhedron:ConvexPolyhedron.__contains__", x_polyhedron_contains_point)]
